@@ -48,6 +48,7 @@ pub(crate) struct ConnectionState {
     poller: Option<Waker>,
     on_connected: Option<Waker>,
     on_handshake_data: Option<Waker>,
+    on_closed: VecDeque<Waker>,
     datagram_received: VecDeque<Waker>,
     datagrams_unblocked: VecDeque<Waker>,
     stream_opened: [VecDeque<Waker>; 2],
@@ -68,6 +69,7 @@ impl ConnectionState {
         if let Some(waker) = self.on_connected.take() {
             waker.wake()
         }
+        self.on_closed.drain(..).for_each(Waker::wake);
         self.datagram_received.drain(..).for_each(Waker::wake);
         self.datagrams_unblocked.drain(..).for_each(Waker::wake);
         for e in &mut self.stream_opened {
@@ -148,6 +150,7 @@ impl ConnectionInner {
                 poller: None,
                 on_connected: None,
                 on_handshake_data: None,
+                on_closed: VecDeque::new(),
                 datagram_received: VecDeque::new(),
                 datagrams_unblocked: VecDeque::new(),
                 stream_opened: [VecDeque::new(), VecDeque::new()],
@@ -653,13 +656,19 @@ impl Connection {
     }
 
     /// Wait for the connection to be closed for any reason.
+    ///
+    /// May be awaited from any number of clones at once, and dropping the
+    /// future has no effect on the connection.
     pub async fn closed(&self) -> ConnectionError {
-        let worker = self.0.state().worker.take();
-        if let Some(worker) = worker {
-            let _ = worker.await;
-        }
-
-        self.0.try_state().unwrap_err()
+        future::poll_fn(|cx| {
+            let mut state = self.0.state();
+            if let Some(error) = &state.error {
+                return Poll::Ready(error.clone());
+            }
+            state.on_closed.push_back(cx.waker().clone());
+            Poll::Pending
+        })
+        .await
     }
 
     /// If the connection is closed, the reason why.
